@@ -178,3 +178,14 @@ claim("C19",
       "are configured from MAX_LOG_FILE_SIZE / MAX_LOG_FILE_COUNT.",
       "Trusts rustc MIR + extractor; off-by-one arithmetic of the deletion loops and restart behaviour are not decided.",
       "DESIGN.md §5 C19")
+
+claim("C20",
+      "interval / finite-string abstract interpretation of update_state with input partitioning + who-may-write facts + path-predicate table",
+      "Decides the health automaton for every history: a forward abstract interpretation (intervals for the two counters, finite set of "
+      "named constants for the state string, branch refinement, 72 partition cells) computes the full transition relation of update_state and "
+      "checks it: counters saturate at 10000 and reset on the opposite observation; ERROR is entered only from TRANSITIONING on a failure "
+      "with >= 20 consecutive failures and never on a success; one success leaves ERROR; a success from SUCCESS/TRANSITIONING yields SUCCESS; "
+      "saturation does not wedge. Threshold/constants/field writers are fixed by who-may-write facts, so the relation is the whole "
+      "behaviour. The notifier's emit/suppress table is checked by path predicates; 'at most once per 120' is argued from that table.",
+      "Trusts rustc MIR + extractor and the abstract transfer functions of lib/absint.py (String/str calls modelled: as_str, to_string, eq, clone).",
+      "DESIGN.md §5 C20")
